@@ -17,6 +17,11 @@ CHECKS = {
             "For every executed instruction of C01's three generators the number of raw clock edges between two boundaries must equal the documented control-word count of the form/addressing mode (data-dependent for JR, MUL, DIV) plus one wait for each model access to an address <= 0xEF and none for I/O addresses; MUL/DIV are swept over all operand pairs.",
             "Trusted: the step-count table `steps()` in harness/src/isa.rs (DESIGN.md Appendix A). Counts are only taken for steps issued as raw edges; step-mode independence of the count is C11's equivalence.",
             "DESIGN.md §4 C15"),
+    "C04": ("exploration",
+            "metamorphic + monitor-based testing: proptest-generated (main, ISR) programs, key press injected at every clock cycle of the run (exhaustive per program) and at every ordered pair of cycles in a window; clone-based obligation monitor, entry-shape check, interrupted == uninterrupted relation",
+            "For each generated program the uninterrupted run gives T; then every cycle 0..=T is tried as trigger. At the trigger an uninterrupted clone is advanced to the first sampling boundary: if enable bit and IEF are set at the press and IEF still is at that boundary the routine must be entered exactly there (PC=2, SP-2, return address and flags pushed, IEF cleared, nothing else changed); if the enable bit (or IEF at both points) is clear it must not be entered; otherwise the count is unconstrained. Every run must end in exactly the state of the uninterrupted run (registers, flags, SP, outputs, RAM outside counter cell and dead stack), and the ISR counter must equal the entries seen at boundaries. Second triggers merge into an undecided obligation.",
+            "Trusted: only public observables are used. Main programs never read 0xF9 except via BITS (0xF9),1. The pending flip-flop being consumed at the first sampling point is this code base's documented behaviour (DESIGN.md §2).",
+            "DESIGN.md §4 C04"),
     "C05": ("exploration",
             "invariant monitor after every clock edge (stateful testing) plus differential lock-step with the instruction-level model; enumerated LDSP / PC-limit / jump-target sweeps and proptest-generated programs and halt-time stimuli",
             "Every clock edge of every run is observed: Running implies SP outside the band table written in the harness and PC <= limit; an edge that writes an invalid SP/PC must end ErrorStopped; Running->ErrorStopped only with invalid SP/PC or opcode 0x00 loaded, Running->Stopped only with opcode 0x01 loaded; at instruction level the halt kind must match the opcode fetched by the reference model. At each halt the machine must be bit-for-bit unchanged by clock edges in both step modes, keep its state under key-interrupt/input/board stimuli, stay error-stopped under continue, and after continue from STOP resume in lock-step with the model. Complete sweeps: LDSP v (256 values) x 9 follow-ups x 5 stack sizes; every PC limit x STOP/0x00/NOP at limit-1/limit/limit+1; jumps to all 256 addresses under 10 limits.",
